@@ -32,6 +32,8 @@ class Enc:
         self.addr = {}
         self.objs = []
         self.nxt = 1
+        self.tuples = {}
+        self.tuple_facts = []
 
     def a(self, o):
         k = id(o)
@@ -52,8 +54,8 @@ class Enc:
             self.a(o)
             if isinstance(o, Node):
                 stack.extend([o._parent, o._attributes, o._nsmap, o._extras, o._children])
-            elif isinstance(o, (list, tuple)):
-                stack.extend(o)
+            elif isinstance(o, list):
+                stack.extend(x for x in o if not isinstance(x, tuple))
             elif isinstance(o, dict):
                 stack.extend(o.values())
 
@@ -68,6 +70,23 @@ class Enc:
             return Val.strv(z3.StringVal(v))
         if isinstance(v, (Node, list, dict)):
             return Val.ref(z3.IntVal(self.a(v)))
+        if isinstance(v, tuple):
+            tid = self.tuples.get(id(v))
+            if tid is None:
+                tid = 900000 + len(self.tuples)
+                self.tuples[id(v)] = tid
+                self.objs_keep = getattr(self, "objs_keep", []) + [v]
+                self.tuple_facts.append(smt.TLEN(z3.IntVal(tid)) == len(v))
+                for i, x in enumerate(v):
+                    try:
+                        self.tuple_facts.append(smt.TITEM(z3.IntVal(tid), i) == self.val(x))
+                    except TypeError:
+                        pass
+            return Val.tupv(z3.IntVal(tid))
+        import enum
+        if isinstance(v, enum.Enum):
+            from pyvc.core import obj_term
+            return obj_term(v)
         raise TypeError(type(v))
 
     def heap(self, top):
@@ -103,7 +122,7 @@ class Enc:
         return Heap(cur, z3.IntVal(top))
 
     def facts(self):
-        out = [STORE == self.a(Node.store)]
+        out = [STORE == self.a(Node.store)] + list(self.tuple_facts)
         for o in self.objs:
             k = KIND_NODE if isinstance(o, Node) else KIND_LIST if isinstance(o, list) else KIND_DICT
             out.append(kind(z3.IntVal(self.addr[id(o)])) == k)
@@ -235,7 +254,10 @@ def check_call(con, f, args, roots, report, label, timeout=20000):
     top0 = enc.nxt
     h0 = enc.heap(top0)
     pre_facts = enc.facts()
-    sa = {p: (spec_arg(enc, con.params[p], v) if isinstance(con.params.get(p), str) else v) for p, v in args.items()}
+    sa = {p: (spec_arg(enc, con.params[p], v) if isinstance(con.params.get(p), str) else (None if callable(con.params.get(p)) else v)) for p, v in args.items()}
+    for p, ty in getattr(con, "cross_params", {}).items():      # parameters the Task types per run (e.g. errs)
+        if p in args:
+            sa[p] = None if args[p] is None else spec_arg(enc, ty, args[p])
     s0 = SV(h0)
     req = clauses(con.requires(s0, **sa)) if con.requires else []
     # requires must hold on the generated state, otherwise the case says nothing
@@ -397,7 +419,46 @@ def cases(rnd, per):
     w9 = world(); con_obj = c06_json.install_serializer(w9, c06_json.MP + "objectify", c06_json.SLOTS4)
     w10 = world(); con_nsp = c07_xml.install_nsp_unique(w10)
     w11 = world(); con_fx = c07_xml.install_format_extras(w11)
+    # rule-specialised contracts (the Rule instance is the real one; the contract's spec side reads rules.json on its own)
+    from contracts.rules_common import rule_world, load_rules
+    from contracts import c03_attrs, c17_insert
+    import metapype.eml.rule as rule_mod
+    rules = load_rules()
+    rule_cons = {}
+    for rn in ("accessRule", "individualNameRule", "datasetRule", "descriptorRule", "anyNameRule"):
+        if rn not in rules:
+            continue
+        wr = rule_world()
+        ca, _, _ = c03_attrs.install(wr, rn, rules[rn][0])
+        ca.cross_params = {"errs": "list:val"}
+        wr2 = rule_world()
+        children = rules[rn][1]
+        try:
+            ci, ia, names_, _ = c17_insert.install(wr2, rn, children, False)
+        except Exception:  # noqa
+            ci = ia = None
+            names_ = []
+        rule_cons[rn] = (ca, ci, ia, names_, rules[rn][0])
     for k in range(per):
+        for rn, (ca, ci, ia, names_, A) in rule_cons.items():
+            Node.store.clear()
+            R = rule_mod.Rule(rn)
+            n = Node("x")
+            for a in rnd.sample(sorted(A) + ["~foreign~"], rnd.randint(0, min(3, len(A) + 1))):
+                vals = A.get(a, [False])[1:]
+                n.add_attribute(a, rnd.choice(list(vals) + ["~unlisted~"]) if vals else "v")
+            errs = rnd.choice([None, [], [("earlier",)]])
+            yield (f"_validate_attributes[{rn}]", ca, rule_mod.Rule._validate_attributes, {"self": R, "node": n, "errs": errs}, [n] + ([errs] if errs is not None else []))
+            if ci is not None and names_:
+                Node.store.clear()
+                R = rule_mod.Rule(rn)
+                par = Node("p")
+                seq = sorted(rnd.choices(names_, k=rnd.randint(0, 4)), key=lambda x: names_.index(x)) if rnd.random() < 0.7 else rnd.choices(names_, k=rnd.randint(0, 4))
+                for nm in seq:
+                    c = Node(nm); par.children.append(c); c.parent = par
+                newc = Node(rnd.choice(names_ + ["~other~"]))
+                yield (f"child_insert_index[{rn}]", ci, rule_mod.Rule.child_insert_index, {"self": R, "parent": par, "new_child": newc}, [par, newc])
+                yield (f"is_allowed_child[{rn}]", ia, rule_mod.Rule.is_allowed_child, {"self": R, "child_name": rnd.choice(names_ + ["~other~"])}, [par])
         nodes = random_forest(rnd, rnd.randint(1, 6)); a = rnd.choice(nodes)
         yield ("add_namespace", cons_ns["add"], Node.add_namespace, {"self": a, "prefix": rnd.choice("pq"), "namespace": rnd.choice(["u1", "u3"]), "nsmap_id": None}, nodes)
         nodes = random_forest(rnd, rnd.randint(1, 6)); a = rnd.choice(nodes)
